@@ -53,6 +53,7 @@ func checkC10(ctx *Ctx, r *Report, tier string) {
 	r.Trusted = []string{"go/types", "go/ssa", "standard-library effect summary: writes only through pointer-like arguments; pointer-receiver methods write their receiver unless the type is synchronised (sync, atomic, os.File, log.Logger)", "SDF operands are pure (induction hypothesis)"}
 	r.Assume = []string{"user-supplied callbacks (ExtrudeFunc, MinFunc, MaxFunc) and user SDF implementations are pure", "Set* methods are not called concurrently with Evaluate (documented usage)"}
 	e := newFxEngine(ctx)
+	e.recvIsWrite = true
 	impls := sdfImplementers(ctx)
 	r.Counts["sdf_implementers"] = len(impls)
 	nRoots := 0
